@@ -7,9 +7,13 @@ package store
 // The store is an external, possibly failing dependency (DESIGN.md §4.4): its methods may
 // return anything. Only the absence of effects on pike's heap and of panics is assumed.
 
+// $opened[url]: the store most recently opened for a URL (nil when opening failed)
+//@ ghost var $opened map[string]Store
 //@ func NewStore(storeURL string) (store Store, err error)
 //@   trusted
 //@   nopanic
+//@   modifies $opened[storeURL]
+//@   ensures [opened] $opened[storeURL] == store
 
 //@ func (s Store) Get(key []byte) (data []byte, err error)
 //@   trusted
